@@ -108,6 +108,9 @@ def observables(kind, ds, seed, n_iter=6):
         st.put_individual_latent_variables("mode", n_individuals=ds.n_individuals)
         out["attach"] = st["nll_attach_ind"]
         out["model_at_visits"] = (st["model"] * ds.mask if not isinstance(st["model"], WeightedTensor) else st["model"].weighted_value * ds.mask)
+        # the attachment is the sum, over OBSERVED entries only, of the entry-wise negative log-density (Gaussian with the
+        # current noise level / Bernoulli), whatever sits at the other entries
+        out["attach_is_observed_sum"] = _attach_reference_ok(model, st)
         stats = model.compute_sufficient_statistics(st)
         out["stats"] = {k: (v.weighted_value if isinstance(v, WeightedTensor) else v) for k, v in stats.items()}
         out["counts"] = [st[k] for k in ("n_obs", "n_obs_per_ft") if k in st.dag] + [torch.tensor(ds.n_observations)]
@@ -133,11 +136,31 @@ def observables(kind, ds, seed, n_iter=6):
     return out
 
 
+def _attach_reference_ok(model, st):
+    y = st["y"]
+    mdl = st["model"]
+    mv = (mdl.value if isinstance(mdl, WeightedTensor) else mdl).double()
+    obs = y.weight.bool() if y.weight is not None else torch.ones_like(y.value, dtype=torch.bool)
+    yv = torch.where(obs, y.value.double(), torch.zeros_like(mv))
+    key = "nll_attach_y_ind" if "nll_attach_y_ind" in st.dag else "nll_attach_ind"
+    got = st[key]
+    got = (got.value if isinstance(got, WeightedTensor) else got).double().reshape(-1)
+    if "noise_std" in st.dag:
+        ns = st["noise_std"].double().reshape(-1)
+        sig = ns if ns.numel() > 1 else ns.expand(mv.shape[-1])
+        ent = 0.5 * ((yv - mv) / sig) ** 2 + torch.log(sig) + 0.5 * math.log(2 * math.pi)
+    else:
+        p = mv.clamp(1e-12, 1 - 1e-7)
+        ent = -(yv * torch.log(p) + (1 - yv) * torch.log(1 - p))
+    ref = torch.where(obs, ent, torch.zeros_like(ent)).sum(dim=(1, 2))
+    return bool(torch.allclose(got, ref, rtol=2e-4, atol=1e-3))
+
+
 def run_scenario(kind, seed, fill, tfill, extra_pad, base_cache):
     rec = {"type": "scenario", "kind": kind, "fill": repr(fill), "tfill": repr(tfill), "extra_pad": extra_pad,
            "v": [], "w": [], "c": [], "weight_dtype": "-"}
     flags = dict(attach_equal=False, stats_equal=False, counts_equal=False, params_equal=False, traj_equal=False,
-                 perso_equal=False, noise_is_observed_rmse=False, all_finite=False)
+                 perso_equal=False, noise_is_observed_rmse=False, attach_is_observed_sum=False, all_finite=False)
     rec.update(flags)
     try:
         if (kind, seed) not in base_cache:
@@ -158,6 +181,7 @@ def run_scenario(kind, seed, fill, tfill, extra_pad, base_cache):
         rec["perso_equal"] = _eq(torch.as_tensor(base["perso"]), torch.as_tensor(tw["perso"]), True) if exact else \
             bool(np.allclose(base["perso"], tw["perso"], rtol=1e-3, atol=1e-2))
         rec["noise_is_observed_rmse"] = bool(base["noise_ok"] and tw["noise_ok"])
+        rec["attach_is_observed_sum"] = bool(base["attach_is_observed_sum"] and tw["attach_is_observed_sum"])
         fin = [tw["attach"]] + list(tw["stats"].values()) + [torch.as_tensor(v) for v in tw["params"].values()] + [torch.as_tensor(tw["perso"])]
         rec["all_finite"] = all(bool(torch.isfinite(torch.as_tensor(x).double()).all()) for x in fin)
         rec["status"] = "ok"
